@@ -55,7 +55,7 @@ theorem nodeAt_child {c : Ctx} {h : Handle} {m n : Node} {s : PStep} (hm : c.nod
     rw [getPath?_append, hm]; exact hn
 
 /-- the common tail of the three mutating entry points once the handle has been accepted -/
-theorem nodeOp_child {c : Ctx} (hc : CInv c) (hwf : WF c.input) {h : Handle} {m : Node}
+theorem nodeOp_child {c : Ctx} (hc : CInv c) {h : Handle} {m : Node}
     (hm : c.nodeAt? h = some m) (hcomp : m.isComposite = true)
     {g : Node → Node × Got} (hg : NodeOpOK c.input g) (childStep : Nat → PStep)
     {pos : Nat} (hpos : specPath c.input 0 h.path = some pos)
@@ -64,7 +64,7 @@ theorem nodeOp_child {c : Ctx} (hc : CInv c) (hwf : WF c.input) {h : Handle} {m 
     (hcinv : Inv c.input cp cn) :
     (c.nodeOp h g childStep).2 = Spec.valueAt c.input h.root (h.path ++ [childStep i]) ∧
     ReadStepOK c (c.nodeOp h g childStep).1 (c.nodeOp h g childStep).2 := by
-  obtain ⟨h1, h2, h3, h4, h5, h6, h7, h8, h9⟩ := nodeOp_ok hc hwf hm hcomp hg childStep
+  obtain ⟨h1, h2, h3, h4, h5, h6, h7, h8, h9⟩ := nodeOp_ok hc hm hcomp hg childStep
   rw [hres] at h8 h9
   simp only [hchild] at h9
   have hsp : specPath c.input 0 (h.path ++ [childStep i]) = some cp := by
@@ -74,13 +74,13 @@ theorem nodeOp_child {c : Ctx} (hc : CInv c) (hwf : WF c.input) {h : Handle} {m 
   exact encodeNode_handleOK (nodeAt_child h8 hchild)
 
 /-- an answer that involves no child -/
-theorem nodeOp_flat {c : Ctx} (hc : CInv c) (hwf : WF c.input) {h : Handle} {m : Node}
+theorem nodeOp_flat {c : Ctx} (hc : CInv c) {h : Handle} {m : Node}
     (hm : c.nodeAt? h = some m) (hcomp : m.isComposite = true)
     {g : Node → Node × Got} (hg : NodeOpOK c.input g) (childStep : Nat → PStep)
     {m' : Node} {got : Got} (hres : g m = (m', got)) (hflat : ∀ i, got ≠ .at i) :
     (c.nodeOp h g childStep).2 = (match got with | .err code => .err code | _ => .null) ∧
     ReadStepOK c (c.nodeOp h g childStep).1 (c.nodeOp h g childStep).2 := by
-  obtain ⟨h1, h2, h3, h4, h5, h6, h7, h8, h9⟩ := nodeOp_ok hc hwf hm hcomp hg childStep
+  obtain ⟨h1, h2, h3, h4, h5, h6, h7, h8, h9⟩ := nodeOp_ok hc hm hcomp hg childStep
   rw [hres] at h9
   cases got with
   | «at» i => exact absurd rfl (hflat i)
